@@ -276,6 +276,29 @@ def stepDb (st : State) (toks : List String) : State × String :=
       let init := ((SKV.range lo hi st.db.store).getLast?).map (·.1)
       ({ st with seqSubs := st.seqSubs ++ [(pfx, init, true)] }, "sub=" ++ toString st.seqSubs.length)
     | none => (st, "bad-op")
+  | "sq.subrace" :: pfx :: rest =>
+    -- a subscription whose initial read races with a write: whatever the interleaving, the subscriber ends
+    -- with the latest key generated for its prefix (here: registered first, then the write)
+    match Hex.decode pfx, (kvOf rest "off").bind (·.toInt?), (kvOf rest "ts").bind (·.toNat?), parseWrite rest with
+    | some pfx, some off, some ts, some req =>
+      let lo := pfx ++ [Db.dash] ++ Db.fmt020d 0
+      let hi := pfx ++ [Db.dash] ++ Db.fmt020d 9223372036854775807
+      let init := ((SKV.range lo hi st.db.store).getLast?).map (·.1)
+      let n := st.seqSubs.length
+      let subs0 := st.seqSubs ++ [(pfx, init, true)]
+      let (db', r) := Db.processWrite st.db req off ts
+      let notes : List (Key × Key) := match r with
+        | .ok resp => (req.puts.zip resp.puts).filterMap fun (p, pr) =>
+            if p.deltas.isEmpty then none
+            else match pr.status, pr.key with
+              | .ok, some k => some (p.key, k)
+              | _, _ => none
+        | .error _ => []
+      let subs := notes.foldl (fun subs nt => subs.map fun s => if s.2.2 && s.1 == nt.1 then (s.1, some nt.2, true) else s) subs0
+      ({ st with db := db', seqSubs := subs }, match r with
+        | .ok resp => "P[" ++ String.intercalate " " (resp.puts.map showPutResp) ++ "] sub=" ++ toString n
+        | .error e => showInfra e)
+    | _, _, _, _ => (st, "bad-op")
   | ["sq.close", n] =>
     match n.toNat? with
     | some n =>
